@@ -18,7 +18,7 @@ REG.contract('C13', A, 'CompilerArgs._should_prepend', trusted=True, params={'cl
 
 REG.contract('C13', A, 'CompilerArgs.flush_pre_post', params={'self': CA},
              ensures=['new(self)._container == view(self._container, self.pre, self.post, self.needs_override_check)',
-                      'len(new(self).pre) == 0', 'len(new(self).post) == 0', 'not new(self).needs_override_check'],
+                      'new(self).pre == EMPTY', 'new(self).post == EMPTY', 'not new(self).needs_override_check'],
              modifies=['self._container', 'self.pre', 'self.post', 'self.needs_override_check'],
              loops={0: Loop(invariant=['new == kf(self.pre, __i)',
                                        'forall(Str, lambda x: (x in pre_flush_set) == (ovr(x) and memb(self.pre, __i, x)))'],
@@ -28,7 +28,7 @@ REG.contract('C13', A, 'CompilerArgs.flush_pre_post', params={'self': CA},
                             locals={'post_flush': Deque(Str), 'post_flush_set': Set(Str)}),
                     2: Loop(invariant=['new == kf(self.pre, len(self.pre)) + filt(self._container, __i, self.pre, self.post)'],
                             locals={'new': List(Str)})},
-             floor=40)
+             reveal=['view'], floor=40)
 
 REG.contract('C13', A, 'CompilerArgs.__iadd__', params={'self': CA, 'args': SeqS},
              ensures=['new(self).post == Qs(self._container, self.pre, self.post, args, len(args))',
@@ -44,7 +44,7 @@ REG.contract('C13', A, 'CompilerArgs.__iadd__', params={'self': CA, 'args': SeqS
              result=CA, returns='self', floor=20)
 
 VIEW = 'view(self._container, self.pre, self.post, self.needs_override_check)'
-FLUSHED = ['len(new(self).pre) == 0', 'len(new(self).post) == 0', 'not new(self).needs_override_check']
+FLUSHED = ['new(self).pre == EMPTY', 'new(self).post == EMPTY', 'not new(self).needs_override_check']
 MODS = ['self._container', 'self.pre', 'self.post', 'self.needs_override_check']
 
 REG.contract('C13', A, 'CompilerArgs.__iter__', params={'self': CA},
@@ -70,11 +70,11 @@ REG.contract('C13', A, 'CompilerArgs.__init__', variant='none', params={'self': 
 REG.contract('C13', A, 'CompilerArgs.__init__', variant='copy', params={'self': CA, 'compiler': Obj, 'iterable': CA},
              ensures=['new(self)._container == view(iterable._container, iterable.pre, iterable.post, iterable.needs_override_check)',
                       'new(iterable)._container == view(iterable._container, iterable.pre, iterable.post, iterable.needs_override_check)',
-                      'len(new(iterable).pre) == 0', 'len(new(iterable).post) == 0', 'not new(iterable).needs_override_check',
+                      'new(iterable).pre == EMPTY', 'new(iterable).post == EMPTY', 'not new(iterable).needs_override_check',
                       'new(self).compiler is compiler'] + FLUSHED,
              modifies=['self', 'iterable._container', 'iterable.pre', 'iterable.post', 'iterable.needs_override_check'], floor=4)
 REG.contract('C13', A, 'CompilerArgs.copy', params={'self': CA},
-             ensures=[f'result._container == {VIEW}', 'len(result.pre) == 0', 'len(result.post) == 0', 'not result.needs_override_check',
+             ensures=[f'result._container == {VIEW}', 'result.pre == EMPTY', 'result.post == EMPTY', 'not result.needs_override_check',
                       'result.compiler is self.compiler', f'new(self)._container == {VIEW}'] + FLUSHED,
              modifies=MODS, result=CA, floor=4)
 
@@ -95,18 +95,18 @@ REG.contract('C13', A, 'CompilerArgs.__add__', params={'self': CA, 'args': SeqS}
                       f'result.pre == rev(Pr({VIEW}, EMPTY, EMPTY, args, len(args)))',
                       'result.needs_override_check == anyovr(args, len(args))',
                       f'new(self)._container == {VIEW}'] + FLUSHED,
-             modifies=MODS, result=CA, floor=5)
+             modifies=MODS, result=CA, floor=5, uses=[('L13.view_flushed', {'c': '*'})])
 
 # direct appends: no reordering / de-dup except through += for absolute paths
 REG.contract('C13', A, 'CompilerArgs.append_direct', params={'self': CA, 'arg': Str},
              ensures=[f'view(new(self)._container, new(self).pre, new(self).post, new(self).needs_override_check) == (app1({VIEW}, arg) if isabs(arg) else {VIEW} + unit(arg))'],
-             modifies=MODS, floor=3)
+             modifies=MODS, floor=3, uses=[('L13.view_flushed', {'c': '*'})])
 REG.contract('C13', A, 'CompilerArgs.extend_direct', params={'self': CA, 'iterable': SeqS},
              ensures=[f'view(new(self)._container, new(self).pre, new(self).post, new(self).needs_override_check) == direct({VIEW}, iterable, len(iterable))'],
              loops={0: Loop(invariant=['view(self._container, self.pre, self.post, self.needs_override_check) == direct(view(old_self._container, old_self.pre, old_self.post, old_self.needs_override_check), iterable, __i)',
                                        'self.compiler is old_self.compiler'])},
-             modifies=MODS, floor=4)
+             modifies=MODS, floor=4, uses=[('L13.view_flushed', {'c': '*'})])
 REG.contract('C13', A, 'CompilerArgs.to_native', params={'self': CA, 'copy': Bool},
              ensures=[f'result == obj_unix_args_to_native(self.compiler, {VIEW})', f'new(self)._container == {VIEW}'] + FLUSHED,
-             modifies=MODS, opaque={'unix_args_to_native': ([SeqS], List(Str))}, floor=4,
+             modifies=MODS, opaque={'unix_args_to_native': ([SeqS], List(Str))}, floor=4, uses=[('L13.view_flushed', {'c': '*'})],
              note='the compiler object is opaque; the list handed to it is exactly the denoted list')
